@@ -1,5 +1,6 @@
 import HH.Proofs.Obs
 import HH.Props.C01
+import HH.Props.Irrelevance
 /-!
 # C02 — SSE4.1, AVX2 and the auto-selecting hasher equal portable on x86_64
 
@@ -56,6 +57,14 @@ theorem sse_eq_spec64 (k : V4) (d : List (BitVec 8)) : Sse.finalize64 (Sse.appen
   rw [sse_hash64, C01.hash64_eq_spec]
 theorem avx_eq_spec256 (k : V4) (d : List (BitVec 8)) : Avx.finalize256 (Avx.append (Avx.new k) d) = Spec.hash256 k d := by
   rw [avx_hash256, C01.hash256_eq_spec]
+
+/-- history level, every configuration at once: any two environments (target class, std, compile-time
+and detected CPU features) produce identical outputs on every history of API calls over
+`HighwayHasher` / `PortableHash` handles — constructors, appends through any entry point, clones,
+checkpoints, restores from arbitrary bytes, finishes, finalisations — `Debug` tags excepted -/
+theorem config_irrelevant (e1 e2 : Env) (ops : List Op) (hops : ∀ op ∈ ops, Irrelevance.opOk op) :
+    Irrelevance.Orels (run e1 [] ops).2 (run e2 [] ops).2 :=
+  Irrelevance.config_irrelevant_from_empty e1 e2 ops hops
 
 /-- non-vacuity: the hypotheses are met by the real constructors -/
 example : Hasher.new .sse ⟨1, 2, 3, 4⟩ = some (Hasher.sse (Sse.new ⟨1, 2, 3, 4⟩)) := rfl
